@@ -96,14 +96,20 @@ class ZoneInfo(_dt.tzinfo):
             return spec[1]
         _, Ts, offs = spec
         w = _wall_seconds(dt)
-        fold1 = dt.fold == 1
+        fold1 = bool(dt.fold == 1)
         off = offs[0]
         # bisect_right over trans_list_wall[fold]; the wall lists are non-decreasing for real
         # zones, which the harness assumes (T_{i+1} - T_i > |offset change|)
         for i, T in enumerate(Ts):
             o_prev, o_next = offs[i], offs[i + 1]
-            thr = T + ite(fold1, smin(o_prev, o_next), smax(o_prev, o_next))
-            off = ite(w >= thr, o_next, off)
+            gap = o_next > o_prev
+            # fold=0 uses T + max(offsets), fold=1 T + min(offsets)   (forks keep forms linear)
+            if (fold1 and not gap) or (not fold1 and gap):
+                thr = T + o_next
+            else:
+                thr = T + o_prev
+            if w >= thr:
+                off = o_next
         return off
 
     def utcoffset(self, dt):
@@ -139,10 +145,12 @@ class ZoneInfo(_dt.tzinfo):
         fold = False
         for i, T in enumerate(Ts):
             o_prev, o_next = offs[i], offs[i + 1]
-            after = u >= T
-            off = ite(after, o_next, off)
-            nxt_before = (u < Ts[i + 1]) if i + 1 < len(Ts) else True
-            fold = OR(fold, AND(after, nxt_before, o_next < o_prev, u - T < o_prev - o_next))
+            if u >= T:
+                off = o_next
+                nxt_before = (u < Ts[i + 1]) if i + 1 < len(Ts) else True
+                fold = False
+                if nxt_before and o_next < o_prev and u - T < o_prev - o_next:
+                    fold = True
         out = dt + _dt.timedelta(seconds=off)   # dispatches to the subclass __add__ (PyNumber_Add)
         if fold:
             if type(out) is _dt.datetime:
